@@ -8,6 +8,12 @@
 //!      iteration order is per-`HashSet` random, so on tie-sensitive cases the model driver
 //!      searches for a choice sequence reproducing exactly that line (membership).
 //!      A stale `=> …` suffix in corpus/replay lines is ignored and recomputed.
+//! op:  `fmr fm <input 1> ;; fm <input 2>`: object reuse, the SAME `FiducciaMattheyses` value (parameters of
+//!      input 2) is used on input 1 and then on input 2; the canonical line is the result on input 2 and
+//!      must be a result the model allows for input 2 alone (and equal a fresh value's when deterministic).
+//! op:  `fmbig <shape> <n> <wkind> <idkind> <mi> <mb> <mp> <mm> <threads> <reuse> <seed>`: large generated
+//!      case (rebuilt from these tokens), oracle only (the list-based model is quadratic per move and the
+//!      output depends on the hash order: the driver answers `skip large-n (oracle only)`).
 //! out: `ok <cap> | <ids> | <moves_per_pass> | <rewinded_moves_per_pass>` (`-` = empty list)
 //!      | `ok-empty` | `lenmismatch` | `bionly` | `panic …`
 
@@ -139,11 +145,17 @@ enum Ran {
     Ok { ids: Vec<usize>, moves: Vec<usize>, rewound: Vec<usize> },
     Err(String),
     Panic(String),
+    Hang,
 }
 
-fn run_impl(c: &Case) -> Ran {
+fn call_fm(
+    fm: &mut coupe::FiducciaMattheyses,
+    c: &Case,
+    ids: &mut [usize],
+) -> Result<coupe::FmMetadata, coupe::Error> {
     let n = c.rows.len();
-    let mut indptr = vec![0usize];
+    let mut indptr = Vec::with_capacity(n + 1);
+    indptr.push(0usize);
     let mut indices = vec![];
     let mut data = vec![];
     for r in &c.rows {
@@ -153,34 +165,60 @@ fn run_impl(c: &Case) -> Ran {
         }
         indptr.push(indices.len());
     }
-    let mut ids = c.ids.clone();
-    let res = catch(|| {
-        let mat: CsMat<i64> = CsMat::new((n, n), indptr, indices, data);
+    let mat: CsMat<i64> = CsMat::new((n, n), indptr, indices, data);
+    if c.f64w {
+        let w: Vec<f64> = c.ws.iter().map(|&x| x as f64).collect();
+        fm.partition(ids, (mat.view(), &w[..]))
+    } else {
+        fm.partition(ids, (mat.view(), &c.ws[..]))
+    }
+}
+
+fn run_impl(c: &Case) -> Ran {
+    exec(c, None, None, None)
+}
+
+/// Run the implementation on `c`. `pre`: the SAME `FiducciaMattheyses` value is first used on that
+/// other input (object reuse). `threads`: rayon pool size. `timeout`: watchdog in seconds.
+fn exec(c: &Case, pre: Option<&Case>, threads: Option<usize>, timeout: Option<u64>) -> Ran {
+    let c = c.clone();
+    let pre = pre.cloned();
+    let job = move || {
         let mut fm = coupe::FiducciaMattheyses {
             max_imbalance: c.mi,
             max_bad_move_in_a_row: c.mb,
             max_passes: c.mp,
             max_moves_per_pass: c.mm,
         };
-        if c.f64w {
-            let w: Vec<f64> = c.ws.iter().map(|&x| x as f64).collect();
-            fm.partition(&mut ids, (mat.view(), &w[..]))
-        } else {
-            fm.partition(&mut ids, (mat.view(), &c.ws[..]))
+        if let Some(p) = &pre {
+            let mut pid = p.ids.clone();
+            let _ = call_fm(&mut fm, p, &mut pid);
         }
-    });
+        let mut ids = c.ids.clone();
+        let r = call_fm(&mut fm, &c, &mut ids);
+        let untouched = fm.max_imbalance.map(f64::to_bits) == c.mi.map(f64::to_bits)
+            && fm.max_bad_move_in_a_row == c.mb
+            && fm.max_passes == c.mp
+            && fm.max_moves_per_pass == c.mm;
+        (r.map(|md| (md.moves_per_pass.clone(), md.rewinded_moves_per_pass.clone())), ids, untouched)
+    };
+    let pooled = move || match threads {
+        Some(t) => with_pool(t, job),
+        None => job(),
+    };
+    let res = match timeout {
+        Some(secs) => catch_timeout(secs, pooled),
+        None => catch(pooled),
+    };
     match res {
-        Caught::Ok(Ok(md)) => Ran::Ok {
-            ids,
-            moves: md.moves_per_pass.clone(),
-            rewound: md.rewinded_moves_per_pass.clone(),
-        },
-        Caught::Ok(Err(coupe::Error::InputLenMismatch { .. })) => Ran::Err("lenmismatch".into()),
-        Caught::Ok(Err(coupe::Error::BiPartitioningOnly)) => Ran::Err("bionly".into()),
-        Caught::Ok(Err(e)) => Ran::Err(format!("err {:?}", e)),
+        Caught::Ok((_, _, false)) => Ran::Err("params-mutated".into()),
+        Caught::Ok((Ok((moves, rewound)), ids, _)) => Ran::Ok { ids, moves, rewound },
+        Caught::Ok((Err(coupe::Error::InputLenMismatch { .. }), _, _)) => Ran::Err("lenmismatch".into()),
+        Caught::Ok((Err(coupe::Error::BiPartitioningOnly), _, _)) => Ran::Err("bionly".into()),
+        Caught::Ok((Err(e), _, _)) => Ran::Err(format!("err {:?}", e)),
         // assert_eq! messages span several lines; the protocol is line based
         Caught::Panic(m) => Ran::Panic(m.split_whitespace().collect::<Vec<_>>().join(" ")),
-        Caught::Hang => Ran::Panic("hang".into()),
+        Caught::Hang => Ran::Hang,
     }
 }
 
@@ -343,6 +381,14 @@ pub fn run_op(ctx: &mut Ctx, op: &str) {
     if ctx.hang_limit_reached() {
         return;
     }
+    if op.starts_with("fmbig ") {
+        run_big(ctx, op);
+        return;
+    }
+    if op.starts_with("fmr ") {
+        run_reuse(ctx, op);
+        return;
+    }
     let Some(c) = parse_op(op) else {
         ctx.record(op.to_string(), "bad-op".into(), false);
         return;
@@ -387,6 +433,7 @@ pub fn run_op(ctx: &mut Ctx, op: &str) {
                 };
                 (format!("panic {}", m), v, false)
             }
+            Ran::Hang => ("hang".to_string(), Some(("hang".to_string(), "watchdog".to_string())), false),
         };
         if seen.contains(&out) {
             continue;
@@ -406,6 +453,479 @@ pub fn run_op(ctx: &mut Ctx, op: &str) {
         Validity::Malformed(w) => ctx.count(&format!("input:malformed:{}", w)),
     }
     ctx.count(if seen.len() > 1 { "hash-order:outputs-differ-between-runs" } else { "hash-order:same-output-in-all-runs" });
+}
+
+// ------------------------------------------------------------------ object reuse
+
+fn strict_decrease_ok(c: &Case, ids: &[usize], moves: &[usize], rewound: &[usize]) -> Option<(&'static str, String)> {
+    // consequences of the pass structure, O(n + m): a pass that keeps moves lowers the cut strictly
+    let kept: usize = moves.iter().zip(rewound).map(|(m, r)| m.saturating_sub(*r)).sum();
+    let c_in = cut2(&c.rows, &c.ids);
+    let c_out = cut2(&c.rows, ids);
+    if kept > 0 && c_out >= c_in {
+        return Some(("fm-kept-moves-without-gain", format!("{} moves kept but cut {} -> {} (doubled)", kept, c_in, c_out)));
+    }
+    None
+}
+
+fn run_reuse(ctx: &mut Ctx, op: &str) {
+    let body = op.strip_prefix("fmr ").unwrap_or("");
+    let base = body.split("=>").next().unwrap_or("");
+    let mut halves = base.split(";;");
+    let (Some(a), Some(b)) = (halves.next(), halves.next()) else {
+        ctx.record(op.to_string(), "bad-op".into(), false);
+        return;
+    };
+    let (Some(c1), Some(c2)) = (parse_op(a.trim()), parse_op(b.trim())) else {
+        ctx.record(op.to_string(), "bad-op".into(), false);
+        return;
+    };
+    let valid = validity(&c2) == Validity::Valid;
+    let fresh1 = run_impl(&c2);
+    let fresh2 = run_impl(&c2);
+    let reused = exec(&c2, Some(&c1), None, None);
+    let line = |r: &Ran| match r {
+        Ran::Ok { ids, moves, rewound } => {
+            if c2.ids.is_empty() {
+                "ok-empty".to_string()
+            } else {
+                format!("ok {} | {} | {} | {}", cap_threshold(&c2).unwrap_or(0), list(ids), list(moves), list(rewound))
+            }
+        }
+        Ran::Err(e) => e.clone(),
+        Ran::Panic(m) => format!("panic {}", m),
+        Ran::Hang => "hang".to_string(),
+    };
+    let (l1, l2, lr) = (line(&fresh1), line(&fresh2), line(&reused));
+    let mut verdict: Option<(String, String)> = None;
+    if let Ran::Ok { ids, moves, rewound } = &reused {
+        if valid && !c2.ids.is_empty() {
+            verdict = oracle(&c2, ids, moves, rewound).map(|(s, w)| (s.to_string(), format!("second call of a reused value: {}", w)));
+        }
+    } else if valid {
+        verdict = Some(("fm-reuse-differs".into(), format!("second call of a reused value: {}", lr)));
+    }
+    ctx.count("reuse");
+    if l1 == l2 {
+        ctx.count("reuse:deterministic-input");
+        if lr != l1 && verdict.is_none() {
+            verdict = Some(("fm-reuse-differs".into(), format!("fresh value: {} / reused value: {}", l1, lr)));
+        }
+    } else {
+        ctx.count("reuse:hash-order-sensitive-input");
+    }
+    let idx = ctx.record(
+        format!("fmr {} ;; {} => {}", format_op(&c1), format_op(&c2), lr),
+        lr.clone(),
+        valid && c2.ids.len() >= 2,
+    );
+    if let Some((sig, what)) = verdict {
+        ctx.fail(idx, &sig, what);
+    }
+}
+
+// ------------------------------------------------------------------ large cases
+
+#[derive(Clone, Debug)]
+struct Big {
+    shape: String,
+    n: usize,
+    wkind: String,
+    idkind: String,
+    mi: Option<f64>,
+    mb: usize,
+    mp: Option<usize>,
+    mm: Option<usize>,
+    threads: usize,
+    reuse: bool,
+    seed: u64,
+}
+
+fn format_big(b: &Big) -> String {
+    format!(
+        "fmbig {} {} {} {} {} {} {} {} {} {} {}",
+        b.shape,
+        b.n,
+        b.wkind,
+        b.idkind,
+        match b.mi {
+            Some(x) => format!("{:x}", x.to_bits()),
+            None => "none".into(),
+        },
+        b.mb,
+        opt(&b.mp),
+        opt(&b.mm),
+        b.threads,
+        b.reuse as u8,
+        b.seed
+    )
+}
+
+fn parse_big(op: &str) -> Option<Big> {
+    let base = op.split("=>").next()?;
+    let t: Vec<&str> = base.split_whitespace().collect();
+    if t.len() != 12 || t[0] != "fmbig" {
+        return None;
+    }
+    let n: usize = t[2].parse().ok()?;
+    if n == 0 || n > 2_000_000 {
+        return None;
+    }
+    Some(Big {
+        shape: t[1].to_string(),
+        n,
+        wkind: t[3].to_string(),
+        idkind: t[4].to_string(),
+        mi: match t[5] {
+            "none" => None,
+            x => Some(f64::from_bits(u64::from_str_radix(x, 16).ok()?)),
+        },
+        mb: t[6].parse().ok()?,
+        mp: parse_opt(t[7])?,
+        mm: parse_opt(t[8])?,
+        threads: t[9].parse().ok()?,
+        reuse: t[10] == "1",
+        seed: t[11].parse().ok()?,
+    })
+}
+
+/// Deterministic construction of a large sparse symmetric graph + weights + ids from the tokens.
+fn build_big(b: &Big, n: usize, salt: u64) -> Option<Case> {
+    let mut rng = Rng::new(b.seed ^ salt.wrapping_mul(0x9E37_79B9_7F4A_7C15));
+    let mut rows: Vec<Vec<(usize, i64)>> = vec![Vec::with_capacity(4); n];
+    let mut add = |rows: &mut Vec<Vec<(usize, i64)>>, u: usize, v: usize, w: i64| {
+        if u != v && u < n && v < n && !rows[u].iter().any(|(x, _)| *x == v) {
+            rows[u].push((v, w));
+            rows[v].push((u, w));
+        }
+    };
+    match b.shape.as_str() {
+        // grids numbered row by row; the last row may be partial
+        "grid4096" | "grid8192" | "gridsq" => {
+            let width = match b.shape.as_str() {
+                "grid4096" => 4096,
+                "grid8192" => 8192,
+                _ => ((n as f64).sqrt() as usize).max(1),
+            };
+            for v in 0..n {
+                if (v + 1) % width != 0 {
+                    add(&mut rows, v, v + 1, 1);
+                }
+                add(&mut rows, v, v + width, 1);
+            }
+        }
+        // a path with a small gadget (two chords) every 64 vertices, edge weights 1..3
+        "pathgadget" => {
+            for v in 0..n {
+                add(&mut rows, v, v + 1, 1 + (v % 3) as i64);
+                if v % 64 == 0 {
+                    add(&mut rows, v, v + 2, 2);
+                    add(&mut rows, v, v + 3, 1);
+                }
+            }
+        }
+        // random graph with degree <= 4, edge weights 1..9
+        "rand4" => {
+            for v in 0..n {
+                for _ in 0..2 {
+                    let u = rng.usize(n);
+                    if rows[v].len() < 4 && rows[u].len() < 4 {
+                        let w = rng.range(1, 9);
+                        add(&mut rows, v, u, w);
+                    }
+                }
+            }
+        }
+        _ => return None,
+    }
+    for r in rows.iter_mut() {
+        r.sort();
+    }
+    let ws: Vec<i64> = match b.wkind.as_str() {
+        "unit" => vec![1; n],
+        "small" => (0..n).map(|_| rng.range(1, 3)).collect(),
+        "wide" => (0..n).map(|_| rng.range(1, 1_000_000_000)).collect(),
+        _ => return None,
+    };
+    let ids: Vec<usize> = match b.idkind.as_str() {
+        "blocks4096" => (0..n).map(|v| (v / 4096) % 2).collect(),
+        "blocks8192" => (0..n).map(|v| (v / 8192) % 2).collect(),
+        "split30" => (0..n).map(|v| (v >= n * 3 / 10) as usize).collect(),
+        "alt" => (0..n).map(|v| v % 2).collect(),
+        "random" => (0..n).map(|_| rng.usize(2)).collect(),
+        _ => return None,
+    };
+    Some(Case { f64w: false, mi: b.mi, mb: b.mb, mp: b.mp, mm: b.mm, rows, ids, ws })
+}
+
+fn size_class(n: usize) -> &'static str {
+    match n {
+        0..=4096 => "<=4096",
+        4097..=8192 => "4097..8192",
+        8193..=16384 => "8193..16384",
+        16385..=20000 => "16385..20000",
+        20001..=65536 => "20001..65536",
+        65537..=131072 => "65537..131072",
+        _ => ">131072",
+    }
+}
+
+fn run_big(ctx: &mut Ctx, op: &str) {
+    let Some(b) = parse_big(op) else {
+        ctx.record(op.to_string(), "bad-op".into(), false);
+        return;
+    };
+    let Some(c) = build_big(&b, b.n, 0) else {
+        ctx.record(op.to_string(), "bad-op".into(), false);
+        return;
+    };
+    // reuse: the same value is first used on another, smaller and ten times heavier input
+    let pre = if b.reuse {
+        build_big(&b, b.n / 2 + 7, 1).map(|mut p| {
+            for w in p.ws.iter_mut() {
+                *w *= 10;
+            }
+            p
+        })
+    } else {
+        None
+    };
+    let secs = if ctx.quick() { 120 } else { 400 };
+    let ran = exec(&c, pre.as_ref(), Some(b.threads), Some(secs));
+    ctx.count(&format!("large:{}", size_class(b.n)));
+    ctx.count(&format!("large:shape:{}", b.shape));
+    ctx.count(&format!("large:threads:{}", b.threads));
+    if b.reuse {
+        ctx.count("reuse");
+        ctx.count("reuse:large");
+    }
+    let base = format_big(&b);
+    let (out, mut verdict): (String, Option<(String, String)>) = match &ran {
+        Ran::Ok { ids, moves, rewound } => {
+            let cap = cap_threshold(&c).unwrap_or(0);
+            let li = loads(&c.ws, &c.ids);
+            let lo = loads(&c.ws, ids);
+            let kept: usize = moves.iter().zip(rewound).map(|(m, r)| m.saturating_sub(*r)).sum();
+            let maxm = moves.iter().copied().max().unwrap_or(0);
+            if maxm > 8192 {
+                ctx.count("large:pass-with-more-than-8192-moves");
+            }
+            if maxm > 16384 {
+                ctx.count("large:pass-with-more-than-16384-moves");
+            }
+            let out = format!(
+                "ok cap={} cut2={}->{} loads={}/{}->{}/{} passes={} moves={} kept={} maxmoves={}",
+                cap,
+                cut2(&c.rows, &c.ids),
+                cut2(&c.rows, ids),
+                li[0],
+                li[1],
+                lo[0],
+                lo[1],
+                moves.len(),
+                moves.iter().sum::<usize>(),
+                kept,
+                maxm
+            );
+            let v = oracle(&c, ids, moves, rewound)
+                .or_else(|| strict_decrease_ok(&c, ids, moves, rewound))
+                .map(|(s, w)| (s.to_string(), w));
+            (out, v)
+        }
+        Ran::Err(e) => (e.clone(), Some(("fm-unexpected-error".into(), e.clone()))),
+        Ran::Panic(m) => (format!("panic {}", m), Some(("panic".into(), format!("{} [{}]", m, panic_sig(m))))),
+        Ran::Hang => ("hang".into(), Some(("hang".into(), format!("no result after {} s", secs)))),
+    };
+    // deterministic inputs (distinct wide weights): a second run, and a fresh value when the first was
+    // reused, must give the same ids and metadata
+    if b.wkind == "wide" && verdict.is_none() {
+        if let Ran::Ok { ids, moves, rewound } = &ran {
+            let again = exec(&c, None, Some(if b.threads == 1 { 3 } else { 1 }), Some(secs));
+            match again {
+                Ran::Ok { ids: i2, moves: m2, rewound: r2 } => {
+                    if &i2 != ids || &m2 != moves || &r2 != rewound {
+                        // hash order can matter only through ties; count, and flag when the first run reused a value
+                        let diff = i2.iter().zip(ids).filter(|(a, b)| a != b).count();
+                        ctx.count("large:second-run-differs");
+                        if b.reuse {
+                            verdict = Some((
+                                "fm-reuse-differs".into(),
+                                format!("fresh value and reused value differ on {} ids (metadata {:?}/{:?} vs {:?}/{:?})", diff, m2, r2, moves, rewound),
+                            ));
+                        }
+                    } else {
+                        ctx.count("large:second-run-identical");
+                    }
+                }
+                _ => verdict = Some(("fm-rerun-failed".into(), "second run of the same input did not return".into())),
+            }
+        }
+    }
+    let idx = ctx.record(format!("{} => {}", base, out), out, true);
+    if let Some((sig, what)) = verdict {
+        ctx.fail(idx, &sig, what);
+    }
+}
+
+fn gen_large(ctx: &mut Ctx) {
+    let big = |shape: &str, n: usize, wk: &str, ik: &str, mi: Option<f64>, mb: usize, mp: Option<usize>, mm: Option<usize>, th: usize, reuse: bool, seed: u64| Big {
+        shape: shape.into(),
+        n,
+        wkind: wk.into(),
+        idkind: ik.into(),
+        mi,
+        mb,
+        mp,
+        mm,
+        threads: th,
+        reuse,
+        seed,
+    };
+    let s = ctx.rng.next() % 1_000_000;
+    let m = usize::MAX;
+    let mut list = vec![
+        // just above / far above 2^12, 2^13, 2^14; block-aligned ids and row-by-row grids; long passes
+        big("grid4096", 20_517, "unit", "blocks4096", Some(0.25), m, Some(1), None, 2, false, s),
+        big("pathgadget", 16_385 + 37, "small", "split30", None, m, Some(2), None, 3, false, s + 1),
+        big("rand4", 20_001, "wide", "random", Some(0.1), 20_001, Some(1), Some(8_500), 16, false, s + 2),
+        big("grid8192", 16_385 + 38, "unit", "blocks8192", Some(1.0), m, Some(1), Some(9001), 1, false, s + 3),
+        big("rand4", 8_193 + 7, "wide", "random", None, m, Some(2), None, 2, true, s + 4),
+        big("gridsq", 4_097, "small", "alt", Some(0.5), 3, None, None, 3, false, s + 5),
+    ];
+    if !ctx.quick() {
+        list.extend(vec![
+            big("grid4096", 65_537 + 11, "unit", "blocks4096", Some(0.25), m, Some(1), Some(17_000), 16, false, s + 6),
+            big("rand4", 70_001, "wide", "random", Some(0.2), m, Some(2), Some(9_000), 3, false, s + 7),
+            big("grid8192", 131_077, "small", "blocks8192", Some(0.5), m, Some(1), Some(10_000), 2, false, s + 8),
+            big("pathgadget", 140_003, "unit", "split30", None, m, Some(1), Some(12_000), 1, false, s + 9),
+            big("rand4", 140_003, "wide", "blocks4096", None, m, Some(1), Some(9_000), 16, true, s + 10),
+            big("gridsq", 20_001, "wide", "split30", None, m, Some(3), None, 1, true, s + 11),
+            big("pathgadget", 32_768 + 5, "wide", "blocks8192", Some(0.05), 50, None, Some(8_200), 2, false, s + 12),
+            big("grid4096", 16_384 + 4096 + 1, "small", "random", Some(3.0), m, Some(2), None, 3, false, s + 13),
+            big("rand4", 24_577, "unit", "alt", Some(0.3), m, Some(1), None, 16, false, s + 14),
+            big("gridsq", 8_193, "unit", "blocks4096", None, 10, None, None, 1, true, s + 15),
+        ]);
+    }
+    for b in list {
+        ctx.count("stream:large");
+        run_op(ctx, &format_big(&b));
+    }
+    ctx.notes.push(
+        "large stream: oracle only (cut, cap, metadata in O(n+m), plus 'kept moves => cut strictly lower', and on \
+         distinct-weight inputs a second run / a fresh value must reproduce ids and metadata); the Lean model is not run \
+         (list-based, quadratic per move; outputs depend on the hash order). Every move of these runs also passes the \
+         implementation's own debug_assert on the tracked cut."
+            .into(),
+    );
+}
+
+fn gen_corners(ctx: &mut Ctx) {
+    // exactly one and two vertices, exhaustive
+    for w in [0i64, 1, 2, 5] {
+        let edges: Edges = if w > 0 { vec![(1, 0, w)] } else { vec![] };
+        for mask in 0..4usize {
+            for ws in [[1i64, 1], [1, 3], [0, 2]] {
+                for (mi, mb, mp, mm) in [
+                    (None, 0usize, None, None),
+                    (None, usize::MAX, None, None),
+                    (Some(0.5), 1, None, None),
+                    (Some(1.0), 2, Some(usize::MAX), Some(usize::MAX)),
+                ] {
+                    let c = Case { f64w: mask == 3, mi, mb, mp, mm, rows: rows_of(2, &edges), ids: vec![mask & 1, mask >> 1], ws: ws.to_vec() };
+                    ctx.count("corner:two-vertices");
+                    run_op(ctx, &format_op(&c));
+                }
+            }
+        }
+    }
+    for id in 0..2usize {
+        for w in [0i64, 1, 7] {
+            let c = Case { f64w: false, mi: Some(0.0), mb: 1, mp: None, mm: None, rows: vec![vec![]], ids: vec![id], ws: vec![w] };
+            ctx.count("corner:one-vertex");
+            run_op(ctx, &format_op(&c));
+        }
+    }
+    // limits at usize::MAX
+    for _ in 0..ctx.budget(20, 200) {
+        let mut c = gen_case(ctx, 12, true);
+        c.mp = Some(usize::MAX);
+        c.mm = Some(usize::MAX);
+        c.mb = usize::MAX;
+        ctx.count("corner:limits-usize-max");
+        run_op(ctx, &format_op(&c));
+    }
+    // i64 vertex weights near 2^60 whose total fits; max_imbalance None: the cap is the heaviest input part,
+    // exactly (a cap that went through f64 is off by up to 128 there)
+    for k in 0..ctx.budget(40, 400) {
+        let base: i64 = (1 << 60) + 256 * ctx.rng.range(-1000, 1000);
+        let c = if k % 2 == 0 {
+            // crafted: part 0 = {a, v} weighs base-2, part 1 = {b} weighs base-4; moving v (weight 4, one edge to b)
+            // would give base, two above the cap base-2, but not above the cap rounded to a multiple of 256
+            let wv = ctx.rng.range(3, 100);
+            let d = ctx.rng.range(1, (wv - 1).min(120));
+            // L0 = base - d (heaviest), L1 = base - d - wv + e  with 1 <= e <= d: target = L1 + wv = base - d + e > L0
+            let e = ctx.rng.range(1, d);
+            let a = base - d - wv;
+            let bw = base - d - wv + e;
+            let we = ctx.rng.range(1, 9);
+            let flip = ctx.rng.chance(1, 2);
+            let (p0, p1) = if flip { (1, 0) } else { (0, 1) };
+            Case {
+                f64w: false,
+                mi: None,
+                mb: ctx.rng.usize(3),
+                mp: None,
+                mm: None,
+                rows: rows_of(3, &vec![(1, 2, we)]),
+                ids: vec![p0, p0, p1],
+                ws: vec![a, wv, bw],
+            }
+        } else {
+            let mut c = gen_case(ctx, 7, true);
+            let n = c.ids.len();
+            c.mi = None;
+            c.f64w = false;
+            for i in 0..n {
+                c.ws[i] = if i < 6 && ctx.rng.chance(2, 3) { base + ctx.rng.range(-300, 300) } else { ctx.rng.range(1, 300) };
+            }
+            c
+        };
+        ctx.count("corner:i64-weights-near-2^60");
+        run_op(ctx, &format_op(&c));
+    }
+    // integer-valued f64 weights near 2^50..2^51 whose total stays below 2^53
+    for _ in 0..ctx.budget(20, 200) {
+        let mut c = gen_case(ctx, 7, true);
+        let n = c.ids.len();
+        c.mi = None;
+        c.f64w = true;
+        for i in 0..n {
+            c.ws[i] = if i < 3 && ctx.rng.chance(2, 3) { (1i64 << 51) + ctx.rng.range(-300, 300) } else { ctx.rng.range(1, 300) };
+        }
+        ctx.count("corner:f64-weights-near-2^51");
+        run_op(ctx, &format_op(&c));
+    }
+    // object reuse, small (the second result is also compared with the model)
+    for k in 0..ctx.budget(60, 600) {
+        let c1 = gen_case(ctx, 12, true);
+        let mut c2 = gen_case(ctx, 12, k % 4 != 3);
+        if k % 2 == 0 {
+            c2.mi = None;
+        }
+        let mut c1 = c1;
+        c1.f64w = c2.f64w;
+        if k % 3 == 0 {
+            // first input much heavier: a cap remembered from the first call would be far too large
+            for w in c1.ws.iter_mut() {
+                *w = (*w).saturating_mul(1000).min(1 << 50);
+            }
+        }
+        c1.mi = c2.mi;
+        c1.mb = c2.mb;
+        c1.mp = c2.mp;
+        c1.mm = c2.mm;
+        run_op(ctx, &format!("fmr {} ;; {}", format_op(&c1), format_op(&c2)));
+    }
 }
 
 // ------------------------------------------------------------------ generator
@@ -762,6 +1282,9 @@ pub fn generate(ctx: &mut Ctx) {
         ctx.count("stream:malformed");
         run_op(ctx, &format_op(&c));
     }
+    // (6) corners (tiny sizes, limits, weights near the type's range, object reuse) and (7) large sizes
+    gen_corners(ctx);
+    gen_large(ctx);
     // (5) the empty input
     let c = Case { f64w: false, mi: None, mb: 0, mp: None, mm: None, rows: vec![], ids: vec![], ws: vec![] };
     run_op(ctx, &format_op(&c));
